@@ -98,6 +98,7 @@ Inductive ekind :=
 | EDict
 | EOpt (default : option tok)
 | ENot | EFollowedBy
+| ELookahead                (* infix_notation's _FB: `self.expr.try_parse(instring, loc); return loc, []` *)
 | ELocated
 | EAtStringStart | EAtLineStart
 | EPrecededBy (exact : bool) (retreat : nat).
@@ -794,6 +795,12 @@ Definition impl (e : expr) (s : str) (loc : nat) (d : bool) (k : kont -> prg) : 
       call c s loc d true (fun o =>
         match o with
         | Ok _ r => k (inr (loc, RPR (pr_del_all r)))
+        | _ => failo o
+        end)
+    | ELookahead =>
+      try_parse c s loc false false (fun o =>
+        match o with
+        | Ok _ _ => k (inr (loc, RList []))
         | _ => failo o
         end)
     | ELocated =>
